@@ -2,22 +2,28 @@
 feature triggers (serde derives, json_stringify placements, async, rust:: imports), several types/traits, multi-file layouts."""
 import random
 
-KNOWN_CRATES = ["serde_json", "rand", "regex", "anyhow", "log", "chrono", "uuid", "itertools", "bytes", "futures", "thiserror", "tracing"]
+# includes the crates the compiler also adds on its own (serde, serde_json, tokio): an explicit rust:: import of one of those must not declare it twice
+KNOWN_CRATES = ["serde_json", "rand", "regex", "anyhow", "log", "chrono", "uuid", "itertools", "bytes", "futures", "thiserror", "tracing", "tokio", "serde"]
 UNKNOWN_CRATES = ["polars", "my_crate", "left_pad", "zzz_unknown"]
 RUST_ITEMS = {"serde_json": "Value", "rand": "Rng", "regex": "Regex", "anyhow": "Error", "log": "Level", "chrono": "Utc", "uuid": "Uuid",
-              "itertools": "Itertools", "bytes": "Bytes", "futures": "Future", "thiserror": "Error", "tracing": "Level"}
+              "itertools": "Itertools", "bytes": "Bytes", "futures": "Future", "thiserror": "Error", "tracing": "Level", "tokio": "spawn", "serde": "Serialize", "axum": "Router"}
 
 
 def model_block(r, name, serde):
     ders = []
     if serde:
-        ders = r.choice([["Serialize"], ["Serialize", "Deserialize"], ["Deserialize", "Serialize"], ["Debug", "Serialize"]])
+        ders = r.choice([["Serialize"], ["Serialize", "Deserialize"], ["Deserialize", "Serialize"], ["Debug", "Serialize"], ["Debug", "Clone", "Deserialize"], ["Serialize", "Debug"]])
     elif r.random() < 0.4:
         ders = r.sample(["Debug", "Clone", "Eq"], r.randint(1, 2))
     lines = []
-    if ders:
+    if len(ders) >= 2 and r.random() < 0.4:
+        # stacked decorators: the serde derive may sit in any of them
+        k = r.randint(1, len(ders) - 1)
+        lines.append("@derive(%s)" % ", ".join(ders[:k]))
+        lines.append("@derive(%s)" % ", ".join(ders[k:]))
+    elif ders:
         lines.append("@derive(%s)" % ", ".join(ders))
-    lines.append("model %s:" % name)
+    lines.append("%s %s:" % (r.choice(["model", "model", "class"]), name))
     for i in range(r.randint(1, 3)):
         lines.append("    f%d: %s" % (i, r.choice(["int", "str", "bool", "float"])))
     return lines
@@ -84,7 +90,7 @@ def gen_project(r, allow_unknown=True, multi=None):
     for i, mn in enumerate(mnames):
         blk = model_block(r, mn, i == serde_idx)
         if multi and i == serde_idx and r.random() < 0.5:
-            dep_module = ["pub " + l if l.startswith("model ") else l for l in blk]
+            dep_module = ["pub " + l if l.startswith(("model ", "class ")) else l for l in blk]
             feats.add("serde.only_in_dependency_module")
         else:
             decls.append(blk)
@@ -101,6 +107,12 @@ def gen_project(r, allow_unknown=True, multi=None):
     if json_use:
         ctor = "%s(%s)" % (mnames[serde_idx], ", ".join("f%d=%s" % (i, "1") for i in range(0)))
         main_body.append("# value")
+    is_web = (not is_async) and r.random() < 0.15
+    if is_web:
+        feats.add("web")
+        imports.append("from web import App, route, Response, GET")
+        decls.append(['@route("/")', "async def index() -> Response:", '    return Response.html("<h1>hi</h1>")'])
+        expect.update({"axum", "tokio", "serde", "serde_json"})
     main = ["%sdef main() -> None:" % ("async " if is_async else "")]
     body = ["println(1)"]
     if is_async:
@@ -110,7 +122,7 @@ def gen_project(r, allow_unknown=True, multi=None):
         feats.add("json_stringify")
         mn = mnames[serde_idx]
         # construct with concrete field values: re-read declared fields from the block
-        blk = (dep_module or [b for b in decls if any(l.startswith("model %s:" % mn) for l in b)][0])
+        blk = (dep_module or [b for b in decls if any(l.startswith(("model %s:" % mn, "class %s:" % mn)) for l in b)][0])
         fields = [l.strip() for l in blk if l.startswith("    f")]
         args = []
         for f in fields:
@@ -120,16 +132,25 @@ def gen_project(r, allow_unknown=True, multi=None):
         placement, stm = json_call_placement(r, "v0")
         feats.add("json_stringify.in_" + placement)
         body += stm
+    if is_web:
+        body += ["app = App()", 'app.run(host="127.0.0.1", port=8080)']
     main += ["    " + l for l in body]
     r.shuffle(decls)
     files = {}
     text = ""
+    dep_rust = ""
+    if multi and r.random() < 0.4:
+        # a rust:: import that only a dependency module makes: the crate must still be declared for the whole project
+        c = r.choice([k for k in KNOWN_CRATES if k not in crates] or KNOWN_CRATES)
+        dep_rust = r.choice(["import rust::%s\n\n\n" % c, "from rust::%s import %s\n\n\n" % (c, RUST_ITEMS[c])])
+        expect.add(c)
+        feats.add("rust.import_in_dependency_module")
     if dep_module:
-        files["shapes.incn"] = "\n".join(dep_module) + "\n"
+        files["shapes.incn"] = dep_rust + "\n".join(dep_module) + "\n"
         imports.append("from shapes import %s" % mnames[serde_idx])
         feats.add("multi_file")
     elif multi:
-        files["util.incn"] = "pub def helper() -> int:\n    return 4\n"
+        files["util.incn"] = dep_rust + "pub def helper() -> int:\n    return 4\n"
         imports.append("from util import helper")
         feats.add("multi_file")
     text += "\n".join(imports) + ("\n\n\n" if imports else "")
@@ -140,10 +161,45 @@ def gen_project(r, allow_unknown=True, multi=None):
     return {"name": name, "files": files, "entry": name + ".incn", "features": feats, "expect_crates": expect, "unknown_crate": unknown}
 
 
+GREEK = ["alpha", "beta", "gamma", "delta", "eps", "zeta", "eta", "theta", "iota", "kappa"]
+
+
 def gen_illtyped(r):
-    """A program that produces several diagnostics from one construct (hash-ordered internals must not leak into the order)."""
-    fields = ["alpha", "beta", "gamma", "delta", "eps", "zeta"]
-    r.shuffle(fields)
-    n = r.randint(3, 6)
-    text = "model Big:\n" + "".join("    %s: int\n" % f for f in fields[:n]) + "\n\ndef main() -> None:\n    b = Big()\n    c = Big(%s=1, nope=2, other=3)\n    println(undefined_one + undefined_two)\n" % fields[0]
-    return {"name": "bad", "files": {"bad.incn": text}, "entry": "bad.incn", "features": {"illtyped.multi_diag"}, "expect_crates": set(), "unknown_crate": None}
+    """A program in which ONE construct produces several diagnostics (or one diagnostic that lists several names): whatever
+    hash-ordered table the checker walks to find them must not leak into their order. Families: constructor fields, trait methods
+    a model/class fails to implement, @requires fields, wrong trait method signatures, unknown names, missing match variants,
+    missing imported items, duplicate declarations."""
+    names = GREEK[:]
+    r.shuffle(names)
+    n = r.randint(3, 7)
+    ns = names[:n]
+    fam = r.choice(["ctor_fields", "trait_methods_model", "trait_methods_class", "requires_fields", "trait_signatures", "unknown_names",
+                    "match_variants", "import_items", "duplicates", "mixed"])
+    files = {}
+    if fam == "ctor_fields":
+        text = "model Big:\n" + "".join("    %s: int\n" % f for f in ns) + "\n\ndef main() -> None:\n    b = Big()\n    c = Big(%s=1, nope=2, other=3)\n    println(undefined_one + undefined_two)\n" % ns[0]
+    elif fam in ("trait_methods_model", "trait_methods_class"):
+        kw = "model" if fam.endswith("model") else "class"
+        have = ns[:r.randint(0, 1)]
+        text = "trait Wide:\n" + "".join("    def %s(self) -> int: ...\n" % m for m in ns) + "\n\n%s Impl with Wide:\n    w: int\n" % kw
+        text += "".join("\n    def %s(self) -> int:\n        return 1\n" % m for m in have) + "\n\ndef main() -> None:\n    pass\n"
+    elif fam == "requires_fields":
+        text = "@requires(%s)\ntrait Needs:\n    def get(self) -> int:\n        return 1\n\n\nclass Impl with Needs:\n    other: int\n\n\ndef main() -> None:\n    pass\n" % ", ".join("%s: int" % f for f in ns)
+    elif fam == "trait_signatures":
+        text = "trait Wide:\n" + "".join("    def %s(self) -> int: ...\n" % m for m in ns) + "\n\nclass Impl with Wide:\n    w: int\n"
+        text += "".join("\n    def %s(self) -> str:\n        return \"s\"\n" % m for m in ns) + "\n\ndef main() -> None:\n    pass\n"
+    elif fam == "unknown_names":
+        text = "def main() -> None:\n" + "".join("    println(%s_missing)\n" % m for m in ns) + "    x = Big(%s)\n" % ", ".join("%s=1" % m for m in ns)
+    elif fam == "match_variants":
+        caps = [m.capitalize() for m in ns]
+        text = "enum Many:\n" + "".join("    %s\n" % c for c in caps) + "\n\ndef main() -> None:\n    v = Many.%s\n    match v:\n        Many.%s => println(1)\n" % (caps[0], caps[0])
+    elif fam == "import_items":
+        files["lib.incn"] = "pub def present() -> int:\n    return 1\n\n\n" + "".join("def %s_private() -> int:\n    return 2\n\n\n" % m for m in ns)
+        text = "from lib import present, %s\n\n\ndef main() -> None:\n    println(present())\n" % ", ".join(["%s_private" % m for m in ns[:3]] + ["%s_absent" % m for m in ns[3:]])
+    elif fam == "duplicates":
+        text = "".join("def %s() -> int:\n    return 1\n\n\n" % m for m in ns) + "".join("def %s() -> str:\n    return \"s\"\n\n\n" % m for m in ns) + "def main() -> None:\n    pass\n"
+    else:
+        text = ("trait Wide:\n" + "".join("    def %s(self) -> int: ...\n" % m for m in ns) + "\n\nmodel Big with Wide:\n" + "".join("    %s: int\n" % f for f in ns) +
+                "\n\ndef main() -> None:\n    b = Big()\n    println(%s)\n" % " + ".join("%s_missing" % m for m in ns))
+    files["bad.incn"] = text
+    return {"name": "bad", "files": files, "entry": "bad.incn", "features": {"illtyped.multi_diag", "illtyped." + fam}, "expect_crates": set(), "unknown_crate": None}
